@@ -259,6 +259,16 @@ ModCombos ==
    Dflt(NonOf(ListS(I0, 0, 2)), ListV(<<>>)), Frz(EnumS(<<VNone, IntV(1)>>), IntV(1)), Frz(NonOf(FloatS(NONE, NONE, FALSE)), FloatV(5)),
    DictS(<< <<1, Frz(NonOf(I0), IntV(1))>>, <<2, I0>> >>), DictS(<< <<1, Dflt(NonOf(I0), IntV(1))>> >>), Frz(NonOf(ObjS(1)), ObjV(1))}
 
+\* specs of one family frozen to DIFFERENT permanent values (and to the same value), for both sides of extend / is_compatible
+FrozenPairs ==
+  {Frz(I0, IntV(1)), Frz(I0, IntV(2)), Frz(IntS(0, 2, FALSE), IntV(2)), Frz(StrS, StrV(1)), Frz(StrS, StrV(2)),
+   Frz(BoolS, BoolV(1)), Frz(BoolS, BoolV(0)), Frz(FloatS(NONE, NONE, FALSE), FloatV(5)), Frz(FloatS(NONE, NONE, FALSE), FloatV(25)),
+   Frz(EnumS(<<IntV(1), IntV(2)>>), IntV(1)), Frz(EnumS(<<IntV(1), IntV(2)>>), IntV(2)),
+   Frz(ListS(I0, 0, NONE), ListV(<<IntV(0)>>)), Frz(ListS(I0, 0, NONE), ListV(<<IntV(2)>>)),
+   Frz(TupleFix(<<I0>>), TupleV(<<IntV(0)>>)), Frz(TupleFix(<<I0>>), TupleV(<<IntV(2)>>)),
+   DictS(<< <<1, Frz(I0, IntV(1))>> >>), DictS(<< <<1, Frz(I0, IntV(2))>> >>),
+   DictS(<< <<1, Frz(I0, IntV(1))>>, <<2, I0>> >>), DictS(<< <<1, Frz(I0, IntV(2))>>, <<2, I0>> >>)}
+
 Sizes3 == {<<0, NONE>>, <<1, NONE>>, <<2, NONE>>, <<0, 0>>, <<0, 1>>, <<1, 1>>, <<0, 2>>, <<1, 2>>, <<2, 2>>}   \* incl. size = 0
 SpecsQ ==
   \* bounds are drawn from {none, negative, zero, positive} for min and for max
@@ -283,7 +293,7 @@ SpecsQ ==
   \cup {UnionS(<<I0, StrS>>), UnionS(<<I01, StrS>>), UnionS(<<I0, ListS(I0, 0, NONE)>>), UnionS(<<StrS, ObjS(1)>>),
         NonOf(UnionS(<<I0, StrS>>)), UnionS(<<FloatS(NONE, NONE, FALSE), StrS>>)}
   \cup {AnyS}
-  \cup MixedDicts \cup ModCombos
+  \cup MixedDicts \cup ModCombos \cup FrozenPairs
 
 \* ---- thorough chunks.  Each chunk is a universe of its own (all pairs inside a chunk are checked).
 Bounds4 == {NONE, -1, 0, 1, 2, 3}
@@ -303,7 +313,7 @@ SpecsNum ==
   \cup {UnionS(<<a, b>>) : a \in {I0, I01, IntS(0, NONE, FALSE), IntS(NONE, 2, FALSE)}, b \in {StrS, FloatS(NONE, NONE, FALSE), ObjS(1)}}
   \cup {NonOf(UnionS(<<I0, StrS>>)), UnionS(<<I0, StrS, ObjS(2)>>), UnionS(<<StrS, I0>>), AnyS, Dflt(AnyS, IntV(1)),
         ObjS(1), ObjS(2), ObjS(3), NonOf(ObjS(1)), NonOf(ObjS(2))}
-  \cup ModCombos
+  \cup ModCombos \cup FrozenPairs
 ValuesNum ==
   {VNone, VMissing, BoolV(1), BoolV(0), FloatV(5), FloatV(25), FloatV(-5), FloatV(15), StrV(1), StrV(2)}
   \cup {IntV(n) : n \in -2..4} \cup {ObjV(1), ObjV(2), ObjV(3)}
